@@ -139,3 +139,17 @@ def origin_units(alias, cls, ctlpath):
                         ensures=[('C06', 'self->control->_originId == self->prevId')])}),
     ]
 UNITS += origin_units('Origin', r'^ffsm2::detail::ControlT<.*>::Origin$', '') + origin_units('COrigin', r'^ffsm2::detail::ConstControlT<.*>::Origin$', '')
+
+# ---- the type-based forms of the control / machine API: each forwards to the id-based form with the id of that state type.
+# The witness instantiates them for A (id 0), B (1), C (2); the contract is the id-based contract at that id.
+def tacc(id_, cls, name, targs, ensures, nparams=0, kw_id=0, **kw):
+    u = acc(id_, cls, name, None, ensures, nparams=nparams, **kw)
+    u['target'] = dict(u['target'], targs=targs)
+    # the id of a state type is computed by template metaprogramming (index<StateList, T>) and reaches the lowered code as
+    # the constant Const<N>: taken from the witness instantiation (that ids follow declaration order is C14's skeleton check)
+    u['consts'] = dict(u['consts'], Const__N=('value', kw_id))
+    return u
+UNITS += [
+    tacc('Control.isActive_T', CTL_CLS, 'isActive', r'^A$', [('C06,C01', '__CPROVER_return_value == (self->_core->registry.active == 0)')], props=['C06', 'C01', 'C18']),
+    tacc('ConstControl.isActive_T', CCTL_CLS, 'isActive', r'^A$', [('C06,C01', '__CPROVER_return_value == (self->_core->registry.active == 0)')], props=['C06', 'C01', 'C18']),
+]
